@@ -69,74 +69,74 @@ func lenDelim(num int, payload []byte) []byte {
 // handWrittenWire: the corners of the wire format.
 func handWrittenWire() map[string][]byte {
 	m := map[string][]byte{
-		"empty":                    {},
-		"id=1":                     {8, 1},
-		"id-nonminimal":            {8, 0x81, 0x80, 0x00},
-		"id-10byte-max":            {8, 0xff, 0xff, 0xff, 0xff, 0xff, 0xff, 0xff, 0xff, 0xff, 0x01},
-		"id-10byte-overflow":       {8, 0xff, 0xff, 0xff, 0xff, 0xff, 0xff, 0xff, 0xff, 0xff, 0x02},
-		"id-11byte":                {8, 0x80, 0x80, 0x80, 0x80, 0x80, 0x80, 0x80, 0x80, 0x80, 0x80, 0x01},
-		"id-10byte-nonminimal-0":   {8, 0x80, 0x80, 0x80, 0x80, 0x80, 0x80, 0x80, 0x80, 0x80, 0x00},
-		"id-truncated":             {8, 0x80},
-		"id-twice-last-wins":       {8, 1, 8, 2},
-		"tag-truncated":            {0x80},
-		"field-0":                  {0, 1},
-		"field-0-bytes":            {2, 0},
-		"field-max":                cat(vint(uint64(536870911)<<3|0), []byte{5}),
-		"field-max+1":              cat(vint(uint64(536870912)<<3|0), []byte{5}),
-		"tag-64bit":                cat(vint(^uint64(0)), []byte{5}),
-		"unknown-varint":           {0x38, 5, 8, 9},
-		"unknown-fixed64":          {0x39, 1, 2, 3, 4, 5, 6, 7, 8, 8, 9},
-		"unknown-fixed64-short":    {0x39, 1, 2, 3, 4, 5, 6, 7},
-		"unknown-fixed32":          {0x3d, 1, 2, 3, 4, 8, 9},
-		"unknown-fixed32-short":    {0x3d, 1, 2, 3},
-		"unknown-bytes":            {0x3a, 2, 1, 2, 8, 9},
-		"unknown-bytes-overrun":    {0x3a, 3, 1, 2},
-		"unknown-group":            {0x3b, 8, 1, 0x3c, 8, 9},
-		"unknown-group-nested":     {0x3b, 0x43, 0x12, 1, 0xff, 0x44, 0x3c, 8, 9},
-		"unknown-group-mismatch":   {0x3b, 0x44},
-		"unknown-group-unclosed":   {0x3b, 8, 1},
-		"group-inner-field-0":      {0x3b, 0, 0x3c},
-		"group-inner-wt6":          {0x3b, 0x0e, 0x3c},
-		"group-inner-bigfield":     cat([]byte{0x3b}, vint(uint64(2147483647)<<3|0), []byte{1, 0x3c}),
-		"group-inner-bigfield+1":   cat([]byte{0x3b}, vint(uint64(2147483648)<<3|0), []byte{1, 0x3c}),
-		"stray-endgroup":           {0x3c},
-		"wiretype-6":               {0x0e, 0},
-		"wiretype-7":               {0x0f, 0},
-		"id-as-bytes(wrong type)":  {0x0a, 1, 5, 8, 7},
-		"id-as-fixed64":            {0x09, 1, 2, 3, 4, 5, 6, 7, 8},
-		"id-as-group":              {0x0b, 0x0c, 8, 7},
-		"header-as-varint":         {0x10, 5},
-		"header-empty":             {0x12, 0},
-		"header-twice-merged":      cat(lenDelim(2, cat(lenDelim(1, []byte("m1")), lenDelim(3, []byte("s1")), lenDelim(5, []byte("r1")))), lenDelim(2, cat(lenDelim(1, []byte("m2")), lenDelim(5, []byte("r2")), lenDelim(2, lenDelim(1, []byte("k")))))),
-		"header-overrun":           {0x12, 5, 0x0a, 1},
-		"header-bad-inner":         {0x12, 2, 0x0a, 5},
-		"header-method-bad-utf8":   lenDelim(2, lenDelim(1, []byte{0xff})),
-		"header-source-surrogate":  lenDelim(2, lenDelim(3, []byte{0xed, 0xa0, 0x80})),
-		"header-record-overlong":   lenDelim(2, lenDelim(5, []byte{0xc0, 0x80})),
-		"header-next-truncated":    lenDelim(2, lenDelim(6, []byte{0xe2, 0x82})),
-		"header-dest-max-rune":     lenDelim(2, lenDelim(4, []byte{0xf4, 0x8f, 0xbf, 0xbf})),
-		"header-dest->max-rune":    lenDelim(2, lenDelim(4, []byte{0xf4, 0x90, 0x80, 0x80})),
-		"kv-bad-key":               lenDelim(2, lenDelim(2, lenDelim(1, []byte{0x80}))),
-		"kv-unknown-field":         lenDelim(2, lenDelim(2, cat(lenDelim(1, []byte("k")), []byte{0x18, 1}, lenDelim(2, []byte("v"))))),
-		"kv-key-twice":             lenDelim(5, lenDelim(1, cat(lenDelim(1, []byte("k1")), lenDelim(1, []byte("k2"))))),
-		"status-code-neg1":         lenDelim(3, cat([]byte{8}, vint(^uint64(0)))),
-		"status-code-2^32+5":       lenDelim(3, cat([]byte{8}, vint(1<<32+5))),
-		"status-code-2^31":         lenDelim(3, cat([]byte{8}, vint(1<<31))),
+		"empty":                     {},
+		"id=1":                      {8, 1},
+		"id-nonminimal":             {8, 0x81, 0x80, 0x00},
+		"id-10byte-max":             {8, 0xff, 0xff, 0xff, 0xff, 0xff, 0xff, 0xff, 0xff, 0xff, 0x01},
+		"id-10byte-overflow":        {8, 0xff, 0xff, 0xff, 0xff, 0xff, 0xff, 0xff, 0xff, 0xff, 0x02},
+		"id-11byte":                 {8, 0x80, 0x80, 0x80, 0x80, 0x80, 0x80, 0x80, 0x80, 0x80, 0x80, 0x01},
+		"id-10byte-nonminimal-0":    {8, 0x80, 0x80, 0x80, 0x80, 0x80, 0x80, 0x80, 0x80, 0x80, 0x00},
+		"id-truncated":              {8, 0x80},
+		"id-twice-last-wins":        {8, 1, 8, 2},
+		"tag-truncated":             {0x80},
+		"field-0":                   {0, 1},
+		"field-0-bytes":             {2, 0},
+		"field-max":                 cat(vint(uint64(536870911)<<3|0), []byte{5}),
+		"field-max+1":               cat(vint(uint64(536870912)<<3|0), []byte{5}),
+		"tag-64bit":                 cat(vint(^uint64(0)), []byte{5}),
+		"unknown-varint":            {0x38, 5, 8, 9},
+		"unknown-fixed64":           {0x39, 1, 2, 3, 4, 5, 6, 7, 8, 8, 9},
+		"unknown-fixed64-short":     {0x39, 1, 2, 3, 4, 5, 6, 7},
+		"unknown-fixed32":           {0x3d, 1, 2, 3, 4, 8, 9},
+		"unknown-fixed32-short":     {0x3d, 1, 2, 3},
+		"unknown-bytes":             {0x3a, 2, 1, 2, 8, 9},
+		"unknown-bytes-overrun":     {0x3a, 3, 1, 2},
+		"unknown-group":             {0x3b, 8, 1, 0x3c, 8, 9},
+		"unknown-group-nested":      {0x3b, 0x43, 0x12, 1, 0xff, 0x44, 0x3c, 8, 9},
+		"unknown-group-mismatch":    {0x3b, 0x44},
+		"unknown-group-unclosed":    {0x3b, 8, 1},
+		"group-inner-field-0":       {0x3b, 0, 0x3c},
+		"group-inner-wt6":           {0x3b, 0x0e, 0x3c},
+		"group-inner-bigfield":      cat([]byte{0x3b}, vint(uint64(2147483647)<<3|0), []byte{1, 0x3c}),
+		"group-inner-bigfield+1":    cat([]byte{0x3b}, vint(uint64(2147483648)<<3|0), []byte{1, 0x3c}),
+		"stray-endgroup":            {0x3c},
+		"wiretype-6":                {0x0e, 0},
+		"wiretype-7":                {0x0f, 0},
+		"id-as-bytes(wrong type)":   {0x0a, 1, 5, 8, 7},
+		"id-as-fixed64":             {0x09, 1, 2, 3, 4, 5, 6, 7, 8},
+		"id-as-group":               {0x0b, 0x0c, 8, 7},
+		"header-as-varint":          {0x10, 5},
+		"header-empty":              {0x12, 0},
+		"header-twice-merged":       cat(lenDelim(2, cat(lenDelim(1, []byte("m1")), lenDelim(3, []byte("s1")), lenDelim(5, []byte("r1")))), lenDelim(2, cat(lenDelim(1, []byte("m2")), lenDelim(5, []byte("r2")), lenDelim(2, lenDelim(1, []byte("k")))))),
+		"header-overrun":            {0x12, 5, 0x0a, 1},
+		"header-bad-inner":          {0x12, 2, 0x0a, 5},
+		"header-method-bad-utf8":    lenDelim(2, lenDelim(1, []byte{0xff})),
+		"header-source-surrogate":   lenDelim(2, lenDelim(3, []byte{0xed, 0xa0, 0x80})),
+		"header-record-overlong":    lenDelim(2, lenDelim(5, []byte{0xc0, 0x80})),
+		"header-next-truncated":     lenDelim(2, lenDelim(6, []byte{0xe2, 0x82})),
+		"header-dest-max-rune":      lenDelim(2, lenDelim(4, []byte{0xf4, 0x8f, 0xbf, 0xbf})),
+		"header-dest->max-rune":     lenDelim(2, lenDelim(4, []byte{0xf4, 0x90, 0x80, 0x80})),
+		"kv-bad-key":                lenDelim(2, lenDelim(2, lenDelim(1, []byte{0x80}))),
+		"kv-unknown-field":          lenDelim(2, lenDelim(2, cat(lenDelim(1, []byte("k")), []byte{0x18, 1}, lenDelim(2, []byte("v"))))),
+		"kv-key-twice":              lenDelim(5, lenDelim(1, cat(lenDelim(1, []byte("k1")), lenDelim(1, []byte("k2"))))),
+		"status-code-neg1":          lenDelim(3, cat([]byte{8}, vint(^uint64(0)))),
+		"status-code-2^32+5":        lenDelim(3, cat([]byte{8}, vint(1<<32+5))),
+		"status-code-2^31":          lenDelim(3, cat([]byte{8}, vint(1<<31))),
 		"status-code-zero-explicit": lenDelim(3, []byte{8, 0}),
-		"status-details":           lenDelim(3, cat(lenDelim(3, cat(lenDelim(1, []byte("type.googleapis.com/x")), lenDelim(2, []byte{0xff, 0x00}))), lenDelim(3, nil))),
-		"status-detail-bad-url":    lenDelim(3, lenDelim(3, lenDelim(1, []byte{0xff}))),
-		"status-msg-as-varint":     lenDelim(3, []byte{0x10, 7}),
-		"body-empty-present":       {0x22, 0},
-		"body-data-empty-explicit": {0x22, 2, 0x0a, 0},
-		"body-twice-merged":        cat(lenDelim(4, lenDelim(1, []byte("one"))), lenDelim(4, nil)),
-		"body-non-utf8-ok":         lenDelim(4, lenDelim(1, []byte{0xff, 0xfe})),
-		"trailer-two":              lenDelim(5, cat(lenDelim(1, lenDelim(1, []byte("a"))), lenDelim(1, nil))),
-		"trailer-twice-merged":     cat(lenDelim(5, lenDelim(1, lenDelim(1, []byte("a")))), lenDelim(5, lenDelim(1, lenDelim(2, []byte("b"))))),
-		"reset-bad-utf8":           lenDelim(6, lenDelim(1, []byte{0xc1, 0xbf})),
-		"reset-ok":                 lenDelim(6, lenDelim(1, []byte("RST_STREAM"))),
-		"fields-reverse-order":     cat(lenDelim(6, nil), lenDelim(5, nil), lenDelim(4, nil), lenDelim(3, nil), lenDelim(2, nil), []byte{8, 9}),
-		"len-varint-huge":          cat([]byte{0x22}, vint(^uint64(0))),
-		"len-nonminimal":           {0x22, 0x82, 0x00, 0x0a, 0},
+		"status-details":            lenDelim(3, cat(lenDelim(3, cat(lenDelim(1, []byte("type.googleapis.com/x")), lenDelim(2, []byte{0xff, 0x00}))), lenDelim(3, nil))),
+		"status-detail-bad-url":     lenDelim(3, lenDelim(3, lenDelim(1, []byte{0xff}))),
+		"status-msg-as-varint":      lenDelim(3, []byte{0x10, 7}),
+		"body-empty-present":        {0x22, 0},
+		"body-data-empty-explicit":  {0x22, 2, 0x0a, 0},
+		"body-twice-merged":         cat(lenDelim(4, lenDelim(1, []byte("one"))), lenDelim(4, nil)),
+		"body-non-utf8-ok":          lenDelim(4, lenDelim(1, []byte{0xff, 0xfe})),
+		"trailer-two":               lenDelim(5, cat(lenDelim(1, lenDelim(1, []byte("a"))), lenDelim(1, nil))),
+		"trailer-twice-merged":      cat(lenDelim(5, lenDelim(1, lenDelim(1, []byte("a")))), lenDelim(5, lenDelim(1, lenDelim(2, []byte("b"))))),
+		"reset-bad-utf8":            lenDelim(6, lenDelim(1, []byte{0xc1, 0xbf})),
+		"reset-ok":                  lenDelim(6, lenDelim(1, []byte("RST_STREAM"))),
+		"fields-reverse-order":      cat(lenDelim(6, nil), lenDelim(5, nil), lenDelim(4, nil), lenDelim(3, nil), lenDelim(2, nil), []byte{8, 9}),
+		"len-varint-huge":           cat([]byte{0x22}, vint(^uint64(0))),
+		"len-nonminimal":            {0x22, 0x82, 0x00, 0x0a, 0},
 	}
 	return m
 }
